@@ -7,6 +7,9 @@ import (
 	"os"
 
 	"github.com/consensys/gnark/logger"
+	"github.com/rs/zerolog"
+
+	"worldcoin/gnark-mbu/logging"
 
 	"verifmon/internal/cli"
 	"verifmon/internal/evid"
@@ -19,6 +22,7 @@ var monitors = map[string]func(*cli.Opts, *evid.Run){
 
 func main() {
 	logger.Disable()
+	*logging.Logger() = zerolog.Nop()
 	levels := map[string]string{}
 	for k := range monitors {
 		levels[k] = "exploration"
